@@ -186,6 +186,31 @@ func VH_shell_Scanner() {
 	}
 }
 
+// VH_shell_LongToken: a quoted section longer than bufio's default buffer, with
+// symbolic bytes around it, against the reference tokenizer.
+func VH_shell_LongToken() {
+	n := vCase("n")
+	q := byte('\'')
+	if vCase("dq") == 1 {
+		q = '"'
+	}
+	in := []byte{vByte("pre"), q}
+	for i := 0; i < n; i++ {
+		in = append(in, 'x')
+	}
+	in = append(in, q, vByte("post"), vByte("post"))
+	want, complete := vRefTokens(in)
+	got, ok := Split(string(in))
+	vCover("long-token")
+	vAssert(len(got) == len(want), "Split (long token): number of fields equals the reference")
+	for i := range got {
+		if i < len(want) {
+			vAssert(vSameText(got[i], want[i].text), "Split (long token): field text equals the reference")
+		}
+	}
+	vAssert(ok == complete, "Split (long token): completeness flag equals the reference")
+}
+
 func VT_shell_tables() {
 	for _, s := range []string{"", "   ", `\ `, `a\ `, `\\a`, `"a\"b"`, `'\'`, "a\\\nb", "a \\\n  b\tc", "\"a\nb\"cd e'f'", "''", " a \"\" b ", "\\", "'", `'\''`, `"\\" '`, `a "b \"`, `"\$x"`, "a\\\n", "a\\\n b"} {
 		f, ok := Split(s)
